@@ -133,7 +133,7 @@ def check_c02(pid, tier, seed, replay):
         cases, n = mc_opt(ck, slice_, ml if not (slice_ == "opt1" and not quick) else 3, steps, dump=True)
         # (R) every program of the slice through the real binary at -O0, -O1 and -O2
         sub = os.path.join(os.path.dirname(cases), "bin_cases.json")
-        cap = 1500 if quick else 400000
+        cap = 3000 if quick else 400000
         # programs still running at the step bound (mostly non-terminating loops) cost a time-out per run:
         # they get a short time-out and, in the quick tier, a smaller sample
         all_lines = [l for l in open(cases).read().split("\n") if l.strip()]
@@ -184,6 +184,8 @@ def check_c02(pid, tier, seed, replay):
     rj = [{"prog": M.retjump_soup(rng, rng.randint(6, 14)), "input": []} for _ in range(80 if quick else 3000)]
     rj += [{"prog": M.fwdjump_family(rng), "input": []} for _ in range(40 if quick else 1000)]
     rj += [{"prog": M.operand_family(rng), "input": []} for _ in range(80 if quick else 2000)]
+    rj += [{"prog": M.selfret_family(rng), "input": []} for _ in range(30 if quick else 600)]
+    rj += [{"prog": M.twolabel_family(rng), "input": []} for _ in range(30 if quick else 600)]
     cpath3 = os.path.join(work, "cases_rj.json")
     M.write_cases(cpath3, rj)
     obs = M.run_obs(ck, cpath3, "Trj", levels="0,1,2", bound=500, timeout_ms=600)
@@ -328,7 +330,11 @@ def check_c10(pid, tier, seed, replay):
     T.append([C(0, 1, 1, H(2)), C(1, 1, 4), C(0, 1, 1, H(2))])
     T.append([C(0, 1, 0, H(2)), C(0, 1, 0, H(2)), C(0, 1, 0, H(13))])
     T.append([C(0, 1, 2, H(4)), C(3, 1, 3), C(0, 1, 2, H(4))])
+    # ... and the return jump that leads to the returning command itself
+    T.append([C(0, 1, 1), C(1, 1, 3, H(7)), C(1, 1, 3, [63, 107, 113])])
+    T.append([C(0, 1, 5), C(0, 1, 1), C(0, 1, 1), C(1, 1, 3, H(7)), C(1, 1, 4), C(5, 1, 3, [63, 107, 113])])
     tc = [{"prog": p} for p in T] + [{"prog": c["prog"]} for c in M.gen_cases(rng, 120 if quick else 3000)]
+    tc += [{"prog": M.selfret_family(rng)} for _ in range(60 if quick else 1500)]
     run_cases(tc, "T")
     ck.cov["vacuity"]["T_programs"] = len(tc)
     ck.cov["rule"] = "M: NoEffects/BoundedWork/SpecTerminates on every program of the slices + guard-necessity; R/T: optimize() at levels 0-2 in an observed child process"
